@@ -102,6 +102,7 @@ def usub_rule(chk, prog, rule="USUB"):
         raise AnalysisBroken("the byte-emission routine (value, destination) -> count was not identified")
     ce = ConstEval(prog)
     n = 0
+    all_src = {}
     for fn, f in sorted(prog.lib_functions().items()):
         # locals holding a byte count: initialised or assigned from a counter call
         src = {}
@@ -113,6 +114,18 @@ def usub_rule(chk, prog, rule="USUB"):
                 call, name = strip(kids(m)[1], casts=True), ref_name(strip(kids(m)[0], casts=True))
             if call is not None and call.get("kind") == "CallExpr" and callee_name(call) in counters and name:
                 src.setdefault(name, []).append(call)
+        # a byte count handed on to a helper as an argument: the helper's parameter holds the same count
+        all_src.setdefault(fn, {}).update(src)
+    for fn, f in sorted(prog.lib_functions().items()):
+        src = dict(all_src.get(fn, {}))
+        names = [p["name"] for p in prog.params(f)]
+        for g, gsrc in all_src.items():
+            for c in walk(prog.body(prog.fn(g))):
+                if c.get("kind") == "CallExpr" and callee_name(c) == fn:
+                    for pn, a in zip(names, call_args(c)):
+                        an = ref_name(strip(a, casts=True))
+                        if an in gsrc:
+                            src.setdefault(pn, []).extend(("via", g, cc, an) for cc in gsrc[an] if not isinstance(cc, tuple))
         if not src:
             continue
         for m, parents in walk_with_parents(prog.body(f)):
@@ -126,15 +139,23 @@ def usub_rule(chk, prog, rule="USUB"):
             if not (qt.startswith("unsigned") or qt in ("size_t", "uint32_t", "uint64_t")):
                 continue
             n += 1
-            w = max(width_of(prog, fn, call_args(c)[counters[callee_name(c)]]) for c in src[v])
+            ws, bumps = [], 0
+            for c in src[v]:
+                if isinstance(c, tuple):        # ("via", caller, call): the count was computed in the caller
+                    ws.append(width_of(prog, c[1], call_args(c[2])[counters[callee_name(c[2])]]))
+                    bumps = max(bumps, sum(1 for x in walk(prog.body(prog.fn(c[1]))) if x.get("kind") == "UnaryOperator" and
+                                           x.get("opcode") == "++" and ref_name(strip(kids(x)[0], casts=True)) == c[3]))
+                else:
+                    ws.append(width_of(prog, fn, call_args(c)[counters[callee_name(c)]]))
+            w = max(ws)
             # a count that was bumped after the call (`bytes++`) is one larger
-            bumps = sum(1 for x in walk(prog.body(f)) if x.get("kind") == "UnaryOperator" and x.get("opcode") == "++" and
-                        ref_name(strip(kids(x)[0], casts=True)) == v)
+            bumps = max(bumps, sum(1 for x in walk(prog.body(f)) if x.get("kind") == "UnaryOperator" and x.get("opcode") == "++" and
+                                   ref_name(strip(kids(x)[0], casts=True)) == v))
             ok = _guarded(m, parents, v, K, ce) or (w + bumps) <= K
             chk.require(ok, rule, "%s/%s/%s" % (rule, fn, expr_str(m)), loc_str(m),
                         "the unsigned difference %s cannot wrap: the byte count is tested against %d first, or the emitted value is at most %d bytes wide"
                         % (expr_str(m), K, K),
                         "%s counts the bytes of a value up to %d bytes wide%s and no test `%s <= %d` guards the subtraction"
                         % (v, w, " plus %d" % bumps if bumps else "", v, K))
-    chk.floor("padding-length subtractions", n, 3)
+    chk.floor("padding-length subtractions", n, 1)
     return n
